@@ -61,6 +61,8 @@ def build_harness(log):
 
 
 def run_lab(name, outdir, seed, tier, log, extra_env=None, timeout=1800):
+    if name == "kern":
+        return run_kern_lab(outdir, seed, tier, log)
     env = dict(GOENV, VERIF_LAB=name, VERIF_OUT=outdir, VERIF_SEED=str(seed), VERIF_TIER=tier)
     if extra_env:
         env.update(extra_env)
@@ -407,3 +409,77 @@ def lockset_pairs(ctx):
     for s, t1, loc, t2 in pairs[:20]:
         desc.append({"system": s, "location_id": loc, "thread_a": t1, "thread_b": t2, "accesses_a": names.get((s, t1, loc), [])[:4], "accesses_b": names.get((s, t2, loc), [])[:4]})
     return dict(info={"unprotected_pairs": desc})
+
+
+
+# --------------------------------------------------------------------------- C13: kernel routers in network namespaces
+
+def run_kern_lab(outdir, seed, tier, log):
+    """Builds private namespace chains (tools/netlab.py) and runs the harness' kern lab inside the client
+    namespace of each: real raw sockets, replies from the kernel's own stack."""
+    sys.path.insert(0, os.path.join(ROOT, "tools"))
+    import netlab
+    os.makedirs(outdir, exist_ok=True)
+    exe = os.path.join(BUILD, "harness.test")
+    lengths = [1, 2, 3] if tier == "quick" else [1, 2, 3, 4, 5]
+    parts, dist, t0 = [], {}, time.time()
+    try:
+        probe = netlab.Chain(0, "p")
+        probe.up()
+        probe.down()
+    except Exception as e:
+        log.append("== kern lab: cannot create network namespaces: %r" % (e,))
+        open(os.path.join(outdir, "kern.cases"), "w").write("")
+        json.dump({"namespaces_unavailable": 1}, open(os.path.join(outdir, "kern.dist.json"), "w"))
+        return True, "namespaces unavailable"
+    idx = 0
+    for n in lengths:
+        variants = [("plain", {}), ("silent", {"silent": max(1, n // 2 + (0 if n < 3 else 0))}), ("nosack", {"nosack": True})] if n >= 2 else [("plain", {})]
+        if tier == "quick" and n == 3:
+            variants = [("plain", {}), ("silent", {"silent": 2})]
+        for vname, opt in variants:
+            c = netlab.Chain(n, "k%d%s" % (n, vname[0]))
+            try:
+                c.up()
+                c.listen(8080)
+                if opt.get("silent"):
+                    c.silence(opt["silent"])
+                if opt.get("nosack"):
+                    c.no_sack()
+                tgt = c.addr(n + 1)
+                sil = opt.get("silent", 0)
+                ps_open = 2 if opt.get("nosack") else 0
+                base = dict(n=n, target=tgt, first=1, last=n + 4, silent=sil, parallel=1)
+                scs = [dict(base, proto="icmp", method="", port=0, port_state=0),
+                       dict(base, proto="udp", method="", port=33434, port_state=0),
+                       dict(base, proto="tcp", method="syn", port=8080, port_state=ps_open),
+                       dict(base, proto="tcp", method="syn", port=8081, port_state=1),
+                       dict(base, proto="tcp", method="sack", port=8080, port_state=ps_open),
+                       dict(base, proto="tcp", method="prefer_sack", port=8080, port_state=ps_open),
+                       dict(base, proto="tcp", method="prefer_sack", port=8081, port_state=1),
+                       dict(base, proto="tcp", method="sack", port=8081, port_state=1)]
+                if vname == "plain":
+                    scs += [dict(base, proto="udp", method="", port=33434, port_state=0, first=min(2, n + 1)),
+                            dict(base, proto="icmp", method="", port=0, port_state=0, last=max(1, n)),        # stops before the destination
+                            dict(base, proto="udp", method="", port=33434, port_state=0, parallel=3),
+                            dict(base, proto="icmp", method="", port=0, port_state=0, parallel=3),
+                            dict(base, proto="tcp", method="syn", port=8080, port_state=0, parallel=2)]
+                fn = "kern_%d.cases" % idx
+                idx += 1
+                env = dict(GOENV, VERIF_LAB="kern", VERIF_OUT=outdir, VERIF_KERN=json.dumps(scs), VERIF_KERN_FILE=fn, VERIF_SEED=str(seed), VERIF_TIER=tier)
+                p = subprocess.run(["ip", "netns", "exec", c.ns[0], exe, "-test.run", "^TestLab$", "-test.timeout", "0"], env=env,
+                                   cwd=os.path.join(ROOT, "harness"), stdout=subprocess.PIPE, stderr=subprocess.STDOUT, text=True, timeout=600)
+                log.append("== kern lab n=%d %s rc=%d\n%s" % (n, vname, p.returncode, p.stdout[-1500:]))
+                if p.returncode != 0:
+                    return False, p.stdout[-2000:]
+                parts.append(os.path.join(outdir, fn))
+                dist["chain_%d_%s" % (n, vname)] = len(scs)
+            finally:
+                c.down()
+    with open(os.path.join(outdir, "kern.cases"), "w") as out:
+        for pth in parts:
+            out.write(open(pth).read())
+            os.remove(pth)
+    json.dump(dist, open(os.path.join(outdir, "kern.dist.json"), "w"))
+    log.append("== kern lab done in %.1fs" % (time.time() - t0))
+    return True, "ok"
